@@ -26,8 +26,10 @@ struct AtomicCounter : CounterBase {
     }
   }
 
-  // Dangerous! Use only to sync with release with acquire or with relaxed if synchronization is not needed
-  [[nodiscard]] YACLIB_INLINE std::size_t Get(std::memory_order order = std::memory_order_relaxed) const noexcept {
+  // Dangerous! Use only to sync with release with acquire or with relaxed if synchronization is not needed.
+  // The default is acquire: GetRef() uses it to conclude "I am the last owner, the value may be moved out",
+  // which must happen after everything the other owners did before they released their reference
+  [[nodiscard]] YACLIB_INLINE std::size_t Get(std::memory_order order = std::memory_order_acquire) const noexcept {
     return count.load(order);
   }
 
